@@ -155,19 +155,22 @@ def search(run, info):
         reqs = []  # (request id, doc index)
         opened = set()
         current = {}
-        ver = 1
+        ver = {}   # per document, restarting at 1 when the document is opened again (what editors do)
         rid = 1
         for di in s:
             u = rng.choice(uris)
-            if u in opened and rng.random() < 0.8:
+            if u in opened and rng.random() < 0.75:
                 k = rng.choice([1, 1, 1, 2])
                 chg = [texts[rng.choice(s)] for _ in range(k - 1)] + [texts[di]]
-                msgs.append(lspclient.did_change(u, ver, chg))
+                ver[u] += 1
+                msgs.append(lspclient.did_change(u, ver[u], chg))
             else:
-                msgs.append(lspclient.did_open(u, ver, texts[di]))
+                if u in opened and rng.random() < 0.6:
+                    msgs.append({"jsonrpc": "2.0", "method": "textDocument/didClose", "params": {"textDocument": {"uri": u}}})
+                ver[u] = 1
+                msgs.append(lspclient.did_open(u, ver[u], texts[di]))
                 opened.add(u)
             current[u] = di
-            ver += 1
             msgs.append(lspclient.sem_tokens(rid, u))
             reqs.append((rid, di))
             rid += 1
@@ -221,9 +224,10 @@ def search(run, info):
                 continue
             fail = check_response(t, data, dom, lexemes, legend, lexer_rejects)
             if fail:
+                upto = next((i for i, mm in enumerate(msgs) if mm.get("id") == rid), len(msgs) - 1)
                 run.violation("impl-violates-property", fail,
                               {"input": {"text": t, "text_hex": hexs(t)}, "response_data": data, "decoded": decode(data or [])[:40],
-                               "history": msgs[:2 * per + 4] if len(msgs) < 40 else "see seed"})
+                               "messages": msgs[:upto + 1], "request_id": rid})
                 continue
             if dom and m:
                 ncorr += 1
@@ -238,7 +242,7 @@ def search(run, info):
     return {"coverage": {
         "rule": "documents = fixed edge cases + repository fixtures + generated programs in random spellings (comments before tokens "
                 "on the same line, multi-line comments, CRLF, FF, non-ASCII in comments/strings) + token soups (a quarter with "
-                "lexical errors); each session is an edit history (didOpen / didChange with 1-2 changes over three URIs) with a "
+                "lexical errors); each session is an edit history (didOpen / didChange with 1-2 changes / didClose and re-open over three URIs, versions counted per document and restarting at 1 on every open) with a "
                 "semantic-token request after each edit and repeated requests for earlier documents; non-trivial = non-empty "
                 "document, distinct by content",
         "responses_checked": nresp,
@@ -253,8 +257,13 @@ def replay(run, rep):
         return 2
     binp = vlib.ironplcc_bin()
     u = "file:///w/a.st"
-    res = lspclient.session(binp, [lspclient.did_open(u, 1, t), lspclient.sem_tokens(1, u)])
-    fr = [f for f in res["frames"] if f.get("id") == 1]
+    if rep.get("messages") and rep.get("request_id") is not None:
+        # the recorded edit history up to the failing request
+        res = lspclient.session(binp, rep["messages"])
+        fr = [f for f in res["frames"] if f.get("id") == rep["request_id"] and "method" not in f]
+    else:
+        res = lspclient.session(binp, [lspclient.did_open(u, 1, t), lspclient.sem_tokens(1, u)])
+        fr = [f for f in res["frames"] if f.get("id") == 1]
     if res["exit"] != 0 or len(fr) != 1:
         return 1
     model = vlib.run_model([("semtok", 0, [hexs(t)])], run.workdir)
